@@ -22,7 +22,8 @@ import common
 import c01_gen as G
 import c01_decks as D
 
-THEOREMS = ['C01_flag_den', 'C01_expand_surfs_den', 'C01_optimise_den',
+THEOREMS = ['C01_flag_den', 'C01_expand_surfs_den', 'C01_expand_surfs_errors',
+            'C01_expand_surfs_facet0', 'C01_optimise_den',
             'C01_to_t4_cell_sound', 'C01_convert_cellref', 'C01_cells',
             'C01_remove_empty_sound', 'C01_prune_sound', 'C01_partition',
             'C01_partition_points']
